@@ -393,6 +393,23 @@ def sites_in(f: FuncInfo) -> List[Dict[str, object]]:
                 env_[k_] = ast.IfExp(test=ast.Compare(left=_copy.deepcopy(cur_v), ops=[ast.Is()], comparators=[ast.Constant(None)]),
                                      body=_Fwd(env_).visit(_copy.deepcopy(st_.body[0].value)), orelse=_copy.deepcopy(cur_v))
                 continue
+        # `A = p if p is not None else D` (the program model stores a conditional assignment as if / else stores) and `if p is None: A = D else: A = p`
+        if isinstance(st_, ast.If) and len(st_.body) == 1 and len(st_.orelse) == 1 and isinstance(st_.body[0], ast.Assign) and isinstance(st_.orelse[0], ast.Assign) and \
+                len(st_.body[0].targets) == 1 and len(st_.orelse[0].targets) == 1 and _key_of(st_.body[0].targets[0]) and \
+                _key_of(st_.body[0].targets[0]) == _key_of(st_.orelse[0].targets[0]) and \
+                isinstance(st_.test, ast.Compare) and len(st_.test.ops) == 1 and isinstance(st_.test.ops[0], (ast.Is, ast.IsNot)) and \
+                isinstance(st_.test.comparators[0], ast.Constant) and st_.test.comparators[0].value is None and _key_of(st_.test.left) and \
+                (_key_of(st_.body[0].targets[0]) in params or _key_of(st_.body[0].targets[0]).startswith("self.")):
+            k_ = _key_of(st_.body[0].targets[0])
+            none_v, other_v = (st_.body[0].value, st_.orelse[0].value) if isinstance(st_.test.ops[0], ast.Is) else (st_.orelse[0].value, st_.body[0].value)
+            tested = env_.get(_key_of(st_.test.left), _copy.deepcopy(st_.test.left))
+            if isinstance(tested, (ast.Name, ast.Attribute)) and _simple(other_v):
+                new_v = ast.IfExp(test=ast.Compare(left=_copy.deepcopy(tested), ops=[ast.Is()], comparators=[ast.Constant(None)]),
+                                  body=_Fwd(env_).visit(_copy.deepcopy(none_v)), orelse=_Fwd(env_).visit(_copy.deepcopy(other_v)))
+                for o_ in [o for o, ov in env_.items() if o != k_ and any(_key_of(x_) == k_ for x_ in ast.walk(ov) if isinstance(x_, (ast.Name, ast.Attribute)))]:
+                    env_.pop(o_, None)
+                env_[k_] = new_v
+                continue
         for k_ in _stores_in(st_):
             env_.pop(k_, None)
             # values that mention k_ are stale from here on
